@@ -129,6 +129,7 @@ func c06Msgs(s string) []*c06Tree {
 }
 
 var c06Nonce uint64
+var c06GrantN int
 
 func c06Build(t *c06Tree) sdk.Msg {
 	a, b := testAddr(200), testAddr(201)
@@ -153,8 +154,14 @@ func c06Build(t *c06Tree) sdk.Msg {
 				url = sdk.MsgTypeURL(&banktypes.MsgMultiSend{})
 			}
 		}
-		exp := time.Now().Add(time.Hour)
-		g, err := authz.NewMsgGrant(a, b, authz.NewGenericAuthorization(url), &exp)
+		// every other grant carries no expiration (valid: it never expires), the others end in an hour
+		var expp *time.Time
+		c06GrantN++
+		if c06GrantN%2 == 0 {
+			exp := time.Now().Add(time.Hour)
+			expp = &exp
+		}
+		g, err := authz.NewMsgGrant(a, b, authz.NewGenericAuthorization(url), expp)
 		if err != nil {
 			panic(err)
 		}
